@@ -35,8 +35,22 @@ RULE = ('certificate hierarchies of chain length 1..4 built with the real securi
         'the description; '
         'histories: up to 3 instances (different anchors / schemas / explicit or default storage) x up to 3 packets in '
         'sampled (quick) or all (thorough) orders; one instance validating packets of ONE key whose KeyLocators name different '
-        'certificates of it (other version / issuer id; the second one valid, missing, Nack, forged or wrongly signed).  non-trivial = at least one validation that needs a certificate '
-        'fetch or a constructor decision; distinct by (scenario tag, key types, order)')
+        'certificates of it (other version / issuer id; the second one valid, missing, Nack, forged or wrongly signed); '
+        'validations that OVERLAP IN TIME: 2-4 validations in flight on one instance (and on 2-3 instances sharing the NDNApp: '
+        'same configuration / other anchor / other or no schema) whose chains share certificates the instance has not cached '
+        '(same signer x2 / x3, the same packet twice, sibling signers meeting at the parent, signer and parent, the '
+        'certificate itself validated as a packet, next to forged / wrong-key / schema-denied packets and packets whose '
+        'certificate is silent / Nack / NetworkError; one deviation of the single-deviation table above two packets of '
+        'one signer; certificate loops next to each other), chain length 1..3, the face holds every answer back and the '
+        'schedule is an explicit list of events start(instance, packet) / deliver(certificate name: one Data or Nack '
+        'answers every pending Interest of that name) / expire(the Interests nobody answers time out), the loop run to '
+        'quiescence between events: strictly sequential, the choice tree in depth-first order from "everything started '
+        'before anything arrives" (thorough: the whole tree up to 150 schedules per scenario, exhausted for most) and random '
+        'schedules; per schedule the extracted concurrent model (Model/ValidatorConc.v) must give the same verdict / exception '
+        'class / Interests per validation, the same outstanding Interests after every event and the same key storage, '
+        'and the oracle demands accept <-> chain for every finished validation, a verdict for every finite chain and ONE '
+        'verdict per (configuration, packet) over all schedules.  non-trivial = at least one validation that needs a certificate '
+        'fetch or a constructor decision; distinct by (scenario tag, key types, order / schedule)')
 ASSUMPTIONS = [
     'signature verification and key import are oracles: the model receives the results of the real '
     'known_key_validator.verify_* / Cryptodome import_key for every (key, packet) pair it can ask about',
@@ -44,9 +58,15 @@ ASSUMPTIONS = [
     'NDNApp.express_interest delivers a Data only for the exact requested name (C03/C05); names are compared component-wise '
     '(MemoryKeyStorage keys on Name.to_bytes, injective on well-formed names: C09_wire_roundtrip)',
     'the retrievable-certificate world is fixed during a history',
+    'overlapping validations: answers reach the application only through the harness events deliver / expire, the loop is run to '
+    'quiescence between two events (virtual clock), so the event list is the linearisation; NDNApp wakes the validations that wait '
+    'for one name in the order in which their Interests were expressed (model: CDeliver; cross-checked by comparing the outstanding '
+    'Interests after every event); an Interest is left to time out only if the world has no answer for its name; a NetworkError '
+    'of face.send does not suspend the validation',
 ]
 
 FUEL = 12          # certificate fetches allowed inside ONE validation before the run is cut off ("no verdict")
+WATCHDOG = 600.0   # virtual seconds after which a validation that neither answers nor fetches is given up ("hang")
 
 LVS_MAIN = r'''
 #KEY: "KEY"/_/_/_
@@ -469,11 +489,15 @@ def run_impl(env, world, ops):
                 p = world.parse(op[2])
                 face.begin()
                 try:
-                    r = await insts[op[1]](p['fname'], p['ptrs'])
+                    # watchdog on the virtual clock: a validator that waits for something nobody will ever provide
+                    # (no Interest outstanding, no timer) must end the history, not hang the harness
+                    r = await asyncio.wait_for(insts[op[1]](p['fname'], p['ptrs']), WATCHDOG)
                     obs.append(('val', 'ok', 1 if r else 0, list(face.sent)))
+                except TimeoutError:
+                    obs.append(('val', 'hang', None, list(face.sent)))
                 except Diverged:
                     obs.append(('val', 'fuel', None, list(face.sent)))
-                except Exception as e:   # noqa
+                except (Exception, asyncio.CancelledError) as e:   # noqa  (awaiting a cancelled future raises CancelledError)
                     obs.append(('val', 'err', exc_code(e), list(face.sent), type(e).__name__))
     try:
         loop.run_until_complete(go())
@@ -623,13 +647,16 @@ def check_history(ctx, env, world, ops, tag, legacy=False):
             ctx.violation(site, 'accepts-without-chain', 'packet accepted although no valid chain to the anchor exists', case)
         if chain is True and not accepted:
             ctx.violation(site, 'rejects-with-chain', f'packet with a valid chain not accepted ({ob[1]} {ob[2]})', case)
-        if ob[1] == 'fuel':
+        if ob[1] == 'hang' and chain is not None:
+            ctx.violation(site, 'no-verdict-finite-chain',
+                          'the validation neither answers nor has a certificate Interest outstanding (virtual-time watchdog)', case)
+        if ob[1] == 'fuel' or (ob[1] == 'hang' and chain is None):
             ctx.violation('CascadeChecker.validate', 'no-verdict-certificate-loop',
                           'certificates that name each other as signers: the validator keeps fetching and never answers', case)
         elif ob[1] == 'err':
             ctx.stat(f'verdict-by-exception:{ob[4]}')
         key = (kind, sid, world.pkts[anchor], op[2])
-        if ob[1] != 'fuel':
+        if ob[1] not in ('fuel', 'hang'):
             if key in verdicts and verdicts[key] != accepted:
                 ctx.violation(site, 'verdict-depends-on-history',
                               'same schema, anchor, packet and certificates: different verdicts at different points of the history', case)
@@ -1165,9 +1192,10 @@ class ConcFace:
         self.pending = [e for e in self.pending if e[0] != tid] + [[tid, nb]]
 
 
-def run_conc_impl(env, world, ctor, pids, choose=None, script=None, own_storage=True):
-    """One instance, the validations of [pids] started in that order, answers delivered as the schedule says.
-    choose(step, enabled events) -> index, or script = the exact list of events.  Returns the observations."""
+def run_conc_impl(env, world, ctors, threads, choose=None, script=None, own_storage=True):
+    """The instances of [ctors] on ONE NDNApp; the validations threads = [(instance, pid)] are started in that order,
+    answers are delivered as the schedule says.  choose(step, enabled events) -> index, or script = the exact list
+    of events ('start', instance, pid) | ('deliver', name bytes) | ('expire',).  Returns the observations."""
     from ndn.app import NDNApp
     from ndn.encoding import Name, TypeNumber
     from ndn.app_support.light_versec import lvs_validator
@@ -1176,35 +1204,41 @@ def run_conc_impl(env, world, ctor, pids, choose=None, script=None, own_storage=
     face = ConcFace(world, loop)
     app = NDNApp(face=face, keychain=object())
     face.app = app
-    out = {'new': ('ok',), 'events': [], 'widths': [], 'queues': [], 'threads': [], 'cache': None}
-    storage = MemoryKeyStorage() if own_storage else None
-    extra = [storage] if own_storage else []
-    results, tasks, started = {}, [], []
+    out = {'new': ('ok',), 'events': [], 'widths': [], 'queues': [], 'threads': [], 'caches': None}
+    storages = [MemoryKeyStorage() for _ in ctors] if own_storage else None
+    results, tasks, started, vs = {}, [], [], []
+    closing = False
     try:
         try:
-            if ctor[0] == 'lvs':
-                v = lvs_validator(env.schemas[ctor[1]], app, world.pkts[ctor[-2]], *extra)
-            else:
-                v = CascadeChecker(app, world.pkts[ctor[-2]], *extra)
+            for i, ctor in enumerate(ctors):
+                extra = [storages[i]] if own_storage else []
+                if ctor[0] == 'lvs':
+                    vs.append(lvs_validator(env.schemas[ctor[1]], app, world.pkts[ctor[-2]], *extra))
+                else:
+                    vs.append(CascadeChecker(app, world.pkts[ctor[-2]], *extra))
         except Exception as e:   # noqa
             out['new'] = ('err', exc_code(e), type(e).__name__)
             return out
 
-        async def runner(tid, pid):
+        async def runner(tid, inst, pid):
             p = world.parse(pid)
             try:
-                r = await v(p['fname'], p['ptrs'])
+                r = await vs[inst](p['fname'], p['ptrs'])
                 results[tid] = ('ok', 1 if r else 0)
             except Exception as e:   # noqa  (an exception is an observation, not a harness failure)
                 results[tid] = ('err', exc_code(e), type(e).__name__)
+            except asyncio.CancelledError as e:
+                if not closing:         # not our clean-up: the validator awaited something that had been cancelled
+                    results[tid] = ('err', exc_code(e), type(e).__name__)
+                raise
 
         for step in range(len(script) if script is not None else MAX_EVENTS):
             if script is not None:
                 ev = tuple(script[step])
             else:
                 enabled = []
-                if len(tasks) < len(pids):
-                    enabled.append(('start', pids[len(tasks)]))
+                if len(tasks) < len(threads):
+                    enabled.append(('start',) + tuple(threads[len(tasks)]))
                 names = []
                 for _, nb in face.pending:
                     if nb not in names:
@@ -1218,11 +1252,12 @@ def run_conc_impl(env, world, ctor, pids, choose=None, script=None, own_storage=
                 out['widths'].append(len(enabled))
                 ev = enabled[choose(step, enabled)]
             if ev[0] == 'start':
-                t = loop.create_task(runner(len(tasks), ev[1]))
-                face.tid_of[t] = len(tasks)
-                tasks.append(t)
-                started.append(ev[1])
-                loop.settle(200)
+                if ev[1] < len(vs):
+                    t = loop.create_task(runner(len(tasks), ev[1], ev[2]))
+                    face.tid_of[t] = len(tasks)
+                    tasks.append(t)
+                    started.append((ev[1], ev[2]))
+                    loop.settle(200)
             elif ev[0] == 'deliver':
                 nb = bytes(ev[1])
                 r = world.store.get(nb)
@@ -1246,13 +1281,14 @@ def run_conc_impl(env, world, ctor, pids, choose=None, script=None, own_storage=
                 st = ('wait', [bytes(c) for c in Name.from_bytes(waiting[tid])])
             else:
                 st = ('stuck',)
-            out['threads'].append((started[tid], st, face.sent.get(tid, [])))
-        if storage is not None and isinstance(getattr(storage, '_cache', None), dict):
-            out['cache'] = sorted((tuple(bytes(c) for c in Name.from_bytes(k)), bytes(kb))
-                                  for k, kb in storage._cache.items())
+            out['threads'].append((started[tid][0], started[tid][1], st, face.sent.get(tid, [])))
+        if own_storage and all(isinstance(getattr(x, '_cache', None), dict) for x in storages):
+            out['caches'] = [sorted((tuple(bytes(c) for c in Name.from_bytes(k)), bytes(kb))
+                                    for k, kb in x._cache.items()) for x in storages]
         out['flag_errors'] = face.flag_errors
         out['stray'] = face.sent.get(-1, [])
     finally:
+        closing = True
         for t in asyncio.all_tasks(loop):
             t.cancel()
         loop.settle()
@@ -1261,21 +1297,8 @@ def run_conc_impl(env, world, ctor, pids, choose=None, script=None, own_storage=
     return out
 
 
-def conc_model_events(events):
-    from ndn.encoding import Name
-    out = []
-    for ev in events:
-        if ev[0] == 'start':
-            out.append([0, ev[1]])
-        elif ev[0] == 'deliver':
-            out.append([2, [bytes(c) for c in Name.from_bytes(bytes(ev[1]))]])
-        else:
-            out.append([3])
-    return out
-
-
 def norm_conc_model(m):
-    """model answer of request 4 -> (queues, threads, cache) in the shape of run_conc_impl"""
+    """model answer of request 4 -> (queues, threads, cache) in the shape of run_conc_impl (thread ids local)"""
     queues = [[[q[0], [bytes(c) for c in (q[1] or [])]] for q in qs] for qs in m[1]]
     threads = []
     for pid, st, sent in m[2][0]:
@@ -1292,31 +1315,81 @@ def norm_conc_model(m):
 
 
 class ConcScenario:
-    """world + instance + the packets validated at overlapping times; tables and chain verdicts computed once"""
+    """world + instances + the packets validated at overlapping times; tables and chain verdicts computed once.
+    The model (one instance, one key storage: Model/ValidatorConc.v) is run once per instance on that instance's
+    starts and on every delivery / expiry; instances share nothing but the NDNApp."""
+    _uid = [0]
 
-    def __init__(self, ctx, env, world, ctor, pids, tag):
-        self.ctx, self.env, self.world, self.ctor, self.pids, self.tag = ctx, env, world, ctor, list(pids), tag
-        self.schema_ids = [ctor[1]] if ctor[0] == 'lvs' else []
-        self.W, self.S = world.tables([ctor[-2]], self.schema_ids)
-        self.ctor_model = model_ops(world, [ctor], self.schema_ids)[0]
-        a = world.parse(ctor[-2])
-        self.trust = [a['name'], a['content'][0] if a['content'] else b'', [] if ctor[0] == 'cascade' else [self.S[0][3]]]
+    def __init__(self, ctx, env, world, ctors, threads, tag):
+        self.ctx, self.env, self.world, self.tag = ctx, env, world, tag
+        self.ctors = [tuple(c) for c in ctors]
+        self.threads = [tuple(t) for t in threads]
+        self.schema_ids = sorted({c[1] for c in self.ctors if c[0] == 'lvs'})
+        self.W, self.S = world.tables(sorted({c[-2] for c in self.ctors}), self.schema_ids)
+        self.ctor_model = model_ops(world, self.ctors, self.schema_ids)
+        self.trust, self.cfgid = [], []
+        for c in self.ctors:
+            a = world.parse(c[-2])
+            self.trust.append([a['name'], a['content'][0] if a['content'] else b'',
+                               [] if c[0] == 'cascade' else [self.S[self.schema_ids.index(c[1])][3]]])
+            self.cfgid.append((c[0], c[1] if c[0] == 'lvs' else None, world.pkts[c[-2]]))
         self.chain = {}
-        self.verdicts = {}          # pid -> accepted?, over every schedule of this scenario
+        self.verdicts = {}          # (trust configuration, pid) -> accepted?, over every schedule of this scenario
         self.seen = set()
-        self.site = 'lvs_validator' if ctor[0] == 'lvs' else 'CascadeChecker.validate'
+        ConcScenario._uid[0] += 1
+        self.uid = ConcScenario._uid[0]
 
-    def has_chain(self, pid):
-        if pid not in self.chain:
-            ch = self.ctx.call([2, 64, self.W, self.trust, pid])
-            self.chain[pid] = None if ch == [] else bool(ch[0])
-        return self.chain[pid]
+    def site(self, inst):
+        return 'lvs_validator' if self.ctors[inst][0] == 'lvs' else 'CascadeChecker.validate'
+
+    def has_chain(self, inst, pid):
+        k = (self.cfgid[inst], pid)
+        if k not in self.chain:
+            ch = self.ctx.call([2, 64, self.W, self.trust[inst], pid])
+            self.chain[k] = None if ch == [] else bool(ch[0])
+        return self.chain[k]
 
     def case(self, impl):
-        return {'kind': 'concurrent', 'tag': self.tag, 'ctor': list(self.ctor), 'threads': self.pids,
+        return {'kind': 'concurrent', 'tag': self.tag, 'ctors': [list(c) for c in self.ctors],
+                'threads': [list(t) for t in self.threads],
                 'events': [list(e) for e in impl['events']], 'pkts': self.world.pkts,
                 'store': {k.hex(): list(v) for k, v in self.world.store.items()},
-                'observed': [(pid, st[:2]) for pid, st, _ in impl['threads']]}
+                'observed': [(inst, pid, st[:2]) for inst, pid, st, _ in impl['threads']]}
+
+    def correspondence(self, impl, case):
+        from ndn.encoding import Name
+        ctx = self.ctx
+        for inst in range(len(self.ctors)):
+            local = [tid for tid, th in enumerate(impl['threads']) if th[0] == inst]
+            evs, keep = [], []
+            for g, ev in enumerate(impl['events']):
+                if ev[0] == 'start':
+                    if ev[1] != inst:
+                        continue
+                    evs.append([0, ev[2]])
+                elif ev[0] == 'deliver':
+                    evs.append([2, [bytes(c) for c in Name.from_bytes(bytes(ev[1]))]])
+                else:
+                    evs.append([3])
+                keep.append(g)
+            m = ctx.call([4, self.W, self.S, self.ctor_model[inst], evs])
+            if is_err(m) or m[0] != 1:
+                ctx.disagree('concurrent', 'model rejected the request / the constructor', case, m, impl['new'])
+                continue
+            mq, mt, mc = norm_conc_model(m)
+            it = [(impl['threads'][tid][1], impl['threads'][tid][2][:2], impl['threads'][tid][3]) for tid in local]
+            iq = [[[local.index(tid), n] for tid, n in impl['queues'][g] if tid in local] for g in keep]
+            if mt != it:
+                k = next((i for i, (x, y) in enumerate(zip(mt, it)) if x != y), None)
+                ctx.disagree('concurrent-validate', f'instance {inst}, its validation #{k}: verdict / exception class / '
+                             'Interests sent differ', case, mt, it)
+            elif mq != iq:
+                k = next((i for i, (x, y) in enumerate(zip(mq, iq)) if x != y), None)
+                ctx.disagree('concurrent-pending', f'instance {inst}: outstanding certificate Interests after its event '
+                             f'#{k} differ', case, mq, iq)
+            elif impl['caches'] is not None and mc != impl['caches'][inst]:
+                ctx.disagree('concurrent-storage', f'instance {inst}: key storage after the schedule differs', case,
+                             mc, impl['caches'][inst])
 
     def check(self, impl, complete):
         """correspondence with the model on the schedule that was run, then the specification oracle"""
@@ -1325,57 +1398,44 @@ class ConcScenario:
         if impl['new'][0] != 'ok':
             ctx.disagree('constructor', 'a validator with a good anchor could not be built', case, ('new', 'ok'), impl['new'])
             return
-        m = ctx.call([4, self.W, self.S, self.ctor_model, conc_model_events(impl['events'])])
-        if is_err(m) or m[0] != 1:
-            ctx.disagree('concurrent', 'model rejected the request / the constructor', case, m, impl['new'])
-        else:
-            mq, mt, mc = norm_conc_model(m)
-            it = [(pid, st[:2], sent) for pid, st, sent in impl['threads']]
-            if mt != it:
-                k = next((i for i, (a, b) in enumerate(zip(mt, it)) if a != b), None)
-                ctx.disagree('concurrent-validate', f'thread #{k}: verdict / exception class / Interests sent differ',
-                             case, mt, it)
-            elif mq != impl['queues']:
-                k = next((i for i, (a, b) in enumerate(zip(mq, impl['queues'])) if a != b), None)
-                ctx.disagree('concurrent-pending', f'outstanding certificate Interests after event #{k} differ',
-                             case, mq, impl['queues'])
-            elif impl['cache'] is not None and mc != impl['cache']:
-                ctx.disagree('concurrent-storage', 'key storage after the schedule differs', case, mc, impl['cache'])
+        self.correspondence(impl, case)
         if impl['flag_errors']:
             ctx.disagree('cert-interest-flags', 'certificate Interest is not (MustBeFresh, not CanBePrefix)', case,
                          [1, 0], impl['flag_errors'][0])
         if impl['stray']:
             ctx.disagree('concurrent', 'an Interest was expressed outside the validations', case, [], impl['stray'])
         # ---- direct oracle -----------------------------------------------------------------------------
-        for tid, (pid, st, sent) in enumerate(impl['threads']):
-            chain = self.has_chain(pid)
+        for tid, (inst, pid, st, sent) in enumerate(impl['threads']):
+            chain = self.has_chain(inst, pid)
             done = st[0] in ('ok', 'err')
             accepted = st[0] == 'ok' and st[1] == 1
+            site = self.site(inst)
             if accepted and chain is not True:
-                ctx.violation(self.site, 'accepts-without-chain',
+                ctx.violation(site, 'accepts-without-chain',
                               'packet accepted (while other validations were in flight) although no valid chain to the anchor exists', case)
             if chain is True and done and not accepted:
-                ctx.violation(self.site, 'rejects-with-chain',
+                ctx.violation(site, 'rejects-with-chain',
                               f'validation #{tid} of a packet with a valid, retrievable chain was not accepted ({st[0]} {st[1]}) '
-                              'while other validations of the same instance were in flight', case)
+                              'while other validations were in flight', case)
             if not done:
                 if chain is None:
                     ctx.violation('CascadeChecker.validate', 'no-verdict-certificate-loop',
                                   'certificates that name each other as signers: the validator keeps fetching and never answers', case)
                 elif complete:
-                    ctx.violation(self.site, 'no-verdict-finite-chain',
+                    ctx.violation(site, 'no-verdict-finite-chain',
                                   f'validation #{tid}: every certificate Interest was answered or timed out, still no verdict', case)
             elif st[0] == 'err':
                 ctx.stat(f'verdict-by-exception:{st[2]}')
             if done:
-                if pid in self.verdicts and self.verdicts[pid] != accepted:
-                    ctx.violation(self.site, 'verdict-depends-on-interleaving',
-                                  'same instance configuration, packet and retrievable certificates: the verdict differs '
-                                  'with what else is in flight / the order in which certificates arrive', case)
-                self.verdicts.setdefault(pid, accepted)
+                k = (self.cfgid[inst], pid)
+                if k in self.verdicts and self.verdicts[k] != accepted:
+                    ctx.violation(site, 'verdict-depends-on-interleaving',
+                                  'same schema, anchor, packet and retrievable certificates: the verdict differs with what else '
+                                  'is in flight / the order in which certificates arrive', case)
+                self.verdicts.setdefault(k, accepted)
 
     def run_one(self, choose, own_storage=True):
-        impl = run_conc_impl(self.env, self.world, self.ctor, self.pids, choose=choose, own_storage=own_storage)
+        impl = run_conc_impl(self.env, self.world, self.ctors, self.threads, choose=choose, own_storage=own_storage)
         key = tuple(tuple(e) for e in impl['events'])
         if key in self.seen:
             return impl, False
@@ -1383,17 +1443,17 @@ class ConcScenario:
         complete = len(impl['events']) < MAX_EVENTS
         self.check(impl, complete)
         n_overlap = max([len(q) for q in impl['queues']] + [0])
-        self.ctx.case((self.tag, key), nontrivial=n_overlap >= 1, stratum=f'conc:{self.tag.split(":")[1]}',
+        self.ctx.case((self.tag, self.uid, key), nontrivial=n_overlap >= 1, stratum=f'conc:{self.tag.split(":")[1]}',
                       sample={'tag': self.tag, 'events': [e[0] for e in impl['events']],
-                              'obs': [(pid, st[:2]) for pid, st, _ in impl['threads']]})
+                              'obs': [(inst, pid, st[:2]) for inst, pid, st, _ in impl['threads']]})
         self.ctx.stat(f'conc-max-outstanding:{min(n_overlap, 4)}')
         shared = max([max([sum(1 for x in q if x[1] == y[1]) for y in q] + [0]) for q in impl['queues']] + [0])
         self.ctx.stat(f'conc-max-waiting-for-one-certificate:{min(shared, 4)}')
         return impl, True
 
     def explore(self, rng, n_random, dfs_limit):
-        """schedules: everything started before anything arrives; one after another; the whole choice tree in
-        depth-first order up to dfs_limit; n_random random ones"""
+        """schedules: one after another; the choice tree in depth-first order (first branch = everything started
+        before anything arrives) up to dfs_limit; n_random random ones"""
         self.run_one(lambda step, en: 1 if en[0][0] == 'start' and len(en) > 1 else 0, own_storage=False)
         prefix, n = [], 0
         while n < dfs_limit:
@@ -1481,9 +1541,9 @@ def gen_concurrent(ctx, env):
     "the unanswered Interests time out" (thorough: the whole choice tree; quick: maximal overlap, no overlap, the
     first branches of the tree and random schedules)."""
     rng = ctx.rng
-    n_random, dfs_limit = ctx.n(3, 40), ctx.n(3, 400)
+    n_random, dfs_limit = ctx.n(3, 10), ctx.n(3, 150)
     # (a) intact hierarchy, every sharing shape x chain length x validator kind
-    for rnd in range(ctx.n(1, 6)):
+    for rnd in range(ctx.n(1, 2)):
         for si, (shape, names) in enumerate(CONC_SHAPES):
             for depth in (1, 2, 3):
                 if not ctx.thorough and (si + depth + rnd) % 3 and shape not in ('same-signer', 'meets-at-parent'):
@@ -1494,9 +1554,9 @@ def gen_concurrent(ctx, env):
                 kind = 'cascade' if (si + depth + rnd) % 4 == 0 else 'lvs'
                 ctor = ('lvs', 0, anchor, None) if kind == 'lvs' else ('cascade', anchor, None)
                 tag = f'conc:{shape}:d{depth}:{kind}:' + ''.join(k[0] for k in h.ktypes[:depth + 1])
-                ConcScenario(ctx, env, w, ctor, [pool[n] for n in names], tag).explore(rng, n_random, dfs_limit)
+                ConcScenario(ctx, env, w, [ctor], [(0, pool[n]) for n in names], tag).explore(rng, n_random, dfs_limit)
     # (b) one deviation somewhere above two packets of one signer: both must be refused, in every interleaving
-    for rnd in range(ctx.n(1, 4)):
+    for rnd in range(ctx.n(1, 2)):
         for di, dev in enumerate(CONC_DEVIATIONS):
             for depth in (2, 3):
                 for link in range(1, depth + 1):
@@ -1510,15 +1570,35 @@ def gen_concurrent(ctx, env):
                     lv = LEVELS[depth]
                     second = w.add(env.data(alt_leaf(h, depth, 2), b'second', env.signer(h.key[lv], h.names[lv])))
                     tag = f'conc:deviation-{dev}:d{depth}:l{link}'
-                    ConcScenario(ctx, env, w, ('lvs', 0, anchor, None), [leaf, second, leaf], tag
-                                 ).explore(rng, ctx.n(2, 20), ctx.n(2, 200))
+                    ConcScenario(ctx, env, w, [('lvs', 0, anchor, None)], [(0, leaf), (0, second), (0, leaf)], tag
+                                 ).explore(rng, ctx.n(2, 6), ctx.n(2, 60))
+    # (d) several instances on one NDNApp, validating at the same time: one Data answers the Interests of all of
+    #     them; same configuration (must agree), other anchor (must refuse what the first accepts), other schema / none
+    for rnd in range(ctx.n(1, 3)):
+        for depth in (1, 2, 3):
+            if not ctx.thorough and depth != 1 + (rnd + ctx.seed) % 3 and depth != 2:
+                continue
+            h = Hier(env, rng, rid='r')
+            h2 = Hier(env, rng, rid='q')
+            w, a1, good, bad = conc_pool(env, rng, h, depth)
+            a2 = w.add(h2.build_cert('root'))
+            n2 = w.add(env.data('/lvs/notice/n2', b'other root', env.signer(h2.key['root'], h2.names['root'])))
+            for mode, ctors, threads in (
+                    ('twins', [('lvs', 0, a1, None), ('lvs', 0, a1, None)],
+                     [(0, good['leaf']), (1, good['leaf']), (0, good['same-signer']), (1, good['sibling-signer'])]),
+                    ('two-anchors', [('lvs', 0, a1, None), ('lvs', 0, a2, None)],
+                     [(1, good['leaf']), (0, good['leaf']), (1, n2), (0, good['same-signer'])]),
+                    ('schema-strict-none', [('lvs', 0, a1, None), ('cascade', a1, None), ('lvs', 1, a1, None)],
+                     [(0, good['leaf']), (2, good['leaf']), (1, bad['schema-denied']), (0, bad['schema-denied'])])):
+                tag = f'conc:instances-{mode}:d{depth}'
+                ConcScenario(ctx, env, w, ctors, threads, tag).explore(rng, ctx.n(2, 10), ctx.n(3, 120))
     # (c) certificate loops next to each other (the known no-verdict finding must not spread to anything else)
     for rnd in range(ctx.n(1, 3)):
         for variant, w, anchor, leaf in loop_worlds(env, rng):
             for kind in ('cascade', 'lvs'):
                 ctor = ('cascade', anchor, None) if kind == 'cascade' else ('lvs', 2, anchor, None)
                 tag = f'conc:loop-{variant}:{kind}'
-                ConcScenario(ctx, env, w, ctor, [leaf, leaf], tag).explore(rng, ctx.n(1, 6), ctx.n(1, 12))
+                ConcScenario(ctx, env, w, [ctor], [(0, leaf), (0, leaf)], tag).explore(rng, ctx.n(1, 6), ctx.n(1, 12))
 
 
 def run(ctx):
@@ -1550,12 +1630,12 @@ def replay(ctx, data):
     w.pkts = [bytes(x) for x in case['pkts']]
     w.store = {bytes.fromhex(k): tuple(v) for k, v in case['store'].items()}
     if case.get('kind') == 'concurrent':
-        sc = ConcScenario(ctx, env, w, tuple(case['ctor']), case['threads'], case['tag'])
+        sc = ConcScenario(ctx, env, w, [tuple(c) for c in case['ctors']], case['threads'], case['tag'])
         events = [tuple(e) for e in case['events']]
-        impl = run_conc_impl(env, w, sc.ctor, sc.pids, script=events)
+        impl = run_conc_impl(env, w, sc.ctors, sc.threads, script=events)
         sc.check(impl, len(events) < MAX_EVENTS)
         ctx.case(('replay', case['tag']), nontrivial=True, sample={'tag': case['tag']})
-        print('replayed', case['tag'], [e[0] for e in events], [(pid, st[:2]) for pid, st, _ in impl['threads']])
+        print('replayed', case['tag'], [e[0] for e in events], [(i, pid, st[:2]) for i, pid, st, _ in impl['threads']])
         return
     ops = [tuple(tuple(x) if isinstance(x, list) else x for x in o) for o in case['ops']]
     impl = check_history(ctx, env, w, ops, case['tag'])
